@@ -196,6 +196,9 @@ theorem C04_no_crash_partial (hosts : List Host) (steps : List Step) :
     | cleanup => exact ⟨hr, hc⟩
     | killIds ids => simp only [cleanupTasks]; split <;> exact ⟨hr, hc⟩
     | mesosStart k => exact ⟨hr, hc⟩
+    | execLost h => exact ⟨hr, hc⟩
+    | agentLost h => exact ⟨hr, hc⟩
+    | watchError k fails => simp only [watchError]; split; exact ⟨hr, hc⟩; split <;> exact ⟨hr, hc⟩
   have : ∀ (steps : List Step) (s : State), s.reuse = false → s.crashed = false → (run s steps).crashed = false := by
     intro steps
     induction steps with
